@@ -3,6 +3,7 @@ package symex
 import (
 	"encoding/hex"
 	"fmt"
+	"math/big"
 
 	"bhsverif/smt"
 )
@@ -206,6 +207,16 @@ func (P *Program) registerRepoModels() {
 		if in.branch(c.IsHex(st)) {
 			*dst = in.hashFromBV(c.HexVal(st))
 			return iface{}
+		}
+		if in.branch(c.IsDec(st)) {
+			// a decimal numeral is hex text as well: up to 64 digits decode (to some hash), a sign or more digits do not
+			n := c.DecVal(st)
+			lim := new(big.Int).Exp(big.NewInt(10), big.NewInt(64), nil)
+			if in.branch(c.And(c.ILe(c.IntConstI(0), n), c.ILt(n, c.IntConst(lim)))) {
+				*dst = in.hashFromBV(c.Fresh("decoded", smt.BV(256)))
+				return iface{}
+			}
+			return in.mkError("encoding/hex: invalid byte or max hash string length exceeded")
 		}
 		okv := c.Fresh("decode_ok", smt.Bool)
 		if in.branch(okv) {
